@@ -1,13 +1,263 @@
-(* C40 — lemmas (first batch): the failsafe chains. *)
+(* C40 — proof framework: compositional reasoning about rule lists on the Ipt machine.
+
+   Everything is relative to an INVARIANT `I` on packets that is insensitive to the skb mark (the static chains
+   only ever change the mark).  Two families of judgements:
+
+     seg_ok  n rs : from an I-packet, `rs` (run with jump budget n) ends in ACCEPT, in RETURN (I kept) or falls
+                    off its end (I kept) - never DROP/REJECT, never a missing chain, never out of fuel.
+     seg_term n rs: the same but never falls off the end (the list decides).
+     seg_dp / seg_drop : dual family for "dropped or passed on" / "dropped".
+
+   The chains the static chains jump to are handled by the rules *_jump / *_goto from a judgement about the callee's
+   body: this is how "whatever policy is configured" stays a universal quantifier. *)
 From Coq Require Import List NArith Bool String Arith Lia.
 From Verif.Common Require Import Packet Ipt.
 From Verif.C40 Require Import Model Spec.
 Import ListNotations.
 Open Scope N_scope.
 
-(* the static chains never jump anywhere from the failsafe chains *)
-Lemma fs_rule_jump_free : forall v d s f, jump_free (fs_rule v d s f).
-Proof.
-  intros v d s f. unfold fs_rule. destruct (fs_net f); try reflexivity.
-  destruct (ipver_eqb (cidr_ver c) v); reflexivity.
-Qed.
+Lemma cons_app1 : forall {A} (x : A) l, x :: l = [x] ++ l.
+Proof. reflexivity. Qed.
+
+Section Seg.
+  Variables (cs : chains) (e : env).
+  Variable I : packet -> Prop.
+  Hypothesis I_mark : forall p m, I p -> I (set_mark p m).
+
+  Definition G (n : nat) := go cs e (run n cs e).
+
+  Lemma run_S : forall n rs p, run (S n) cs e rs p = G n rs p.
+  Proof. reflexivity. Qed.
+
+  (* ---------------------------------------------------------------- "never dropped" family *)
+  Definition okres (r : result) : Prop :=
+    match r with RFall p' | RReturn p' => I p' | RDone FAccept _ => True | _ => False end.
+  Definition termres (r : result) : Prop :=
+    match r with RReturn p' => I p' | RDone FAccept _ => True | _ => False end.
+  Definition seg_ok (n : nat) (rs : list irule) : Prop := forall p, I p -> okres (G n rs p).
+  Definition seg_term (n : nat) (rs : list irule) : Prop := forall p, I p -> termres (G n rs p).
+
+  Lemma termres_okres : forall r, termres r -> okres r.
+  Proof. destruct r as [[| |] ?|?|?| |]; simpl; tauto. Qed.
+  Lemma seg_term_ok : forall n rs, seg_term n rs -> seg_ok n rs.
+  Proof. intros n rs H p Hp. apply termres_okres, H, Hp. Qed.
+
+  Lemma okres_not_fuel : forall r, okres r -> r <> RFuel.
+  Proof. intros r H E. subst r. exact H. Qed.
+
+  Lemma G_mono : forall n m rs p, (n <= m)%nat -> G n rs p <> RFuel -> G m rs p = G n rs p.
+  Proof.
+    intros n m rs p Hle Hne. change (run (S m) cs e rs p = run (S n) cs e rs p).
+    eapply run_mono; [|reflexivity|exact Hne]. lia.
+  Qed.
+  Lemma seg_ok_mono : forall n m rs, (n <= m)%nat -> seg_ok n rs -> seg_ok m rs.
+  Proof.
+    intros n m rs Hle H p Hp. specialize (H p Hp).
+    rewrite (G_mono n m rs p Hle (okres_not_fuel _ H)). exact H.
+  Qed.
+  Lemma seg_term_mono : forall n m rs, (n <= m)%nat -> seg_term n rs -> seg_term m rs.
+  Proof.
+    intros n m rs Hle H p Hp. specialize (H p Hp).
+    rewrite (G_mono n m rs p Hle (okres_not_fuel _ (termres_okres _ H))). exact H.
+  Qed.
+
+  Lemma seg_nil : forall n, seg_ok n [].
+  Proof. intros n p Hp. exact Hp. Qed.
+
+  Lemma seg_app : forall n a b, seg_ok n a -> seg_ok n b -> seg_ok n (a ++ b).
+  Proof.
+    intros n a b Ha Hb p Hp. unfold G. rewrite go_app. specialize (Ha p Hp). unfold G in Ha.
+    destruct (go cs e (run n cs e) a p) as [[| |] ?|?|p'| |]; simpl in *; auto.
+    apply Hb, Ha.
+  Qed.
+  Lemma seg_app_term : forall n a b, seg_ok n a -> seg_term n b -> seg_term n (a ++ b).
+  Proof.
+    intros n a b Ha Hb p Hp. unfold G. rewrite go_app. specialize (Ha p Hp). unfold G in Ha.
+    destruct (go cs e (run n cs e) a p) as [[| |] ?|?|p'| |]; simpl in *; auto.
+    apply Hb, Ha.
+  Qed.
+  Lemma seg_cons : forall n r rs, seg_ok n [r] -> seg_ok n rs -> seg_ok n (r :: rs).
+  Proof. intros. rewrite cons_app1. apply seg_app; assumption. Qed.
+  Lemma seg_cons_term : forall n r rs, seg_ok n [r] -> seg_term n rs -> seg_term n (r :: rs).
+  Proof. intros. rewrite cons_app1. apply seg_app_term; assumption. Qed.
+
+  Definition is_allow (a : target) : Prop := a = AAccept \/ a = AReturn.
+  Definition is_noop (a : target) : Prop := a = ANone \/ a = ALog \/ a = ANflog \/ a = ANoTrack.
+
+  Lemma seg_rule_allow : forall n ms a, is_allow a -> seg_ok n [R ms a].
+  Proof.
+    intros n ms a Ha p Hp. unfold G. cbn [go R ir_match ir_action].
+    destruct (matches e p ms); [|exact Hp]. destruct Ha; subst a; simpl; auto.
+  Qed.
+  Lemma seg_rule_mark : forall n ms a x, seg_ok n [R ms (AMark a x)].
+  Proof.
+    intros n ms a x p Hp. unfold G. cbn [go R ir_match ir_action].
+    destruct (matches e p ms); [|exact Hp]. simpl. apply I_mark, Hp.
+  Qed.
+  Lemma seg_rule_noop : forall n ms a, is_noop a -> seg_ok n [R ms a].
+  Proof.
+    intros n ms a Ha p Hp. unfold G. cbn [go R ir_match ir_action].
+    destruct (matches e p ms); [|exact Hp]. destruct Ha as [?|[?|[?|?]]]; subst a; exact Hp.
+  Qed.
+  Lemma seg_rule_nomatch : forall n ms a, (forall p, I p -> matches e p ms = false) -> seg_ok n [R ms a].
+  Proof.
+    intros n ms a H p Hp. unfold G. cbn [go R ir_match ir_action]. rewrite (H p Hp). exact Hp.
+  Qed.
+  (* a rule record that is not syntactically `R ..` *)
+  Lemma seg_rule_nomatch' : forall n r, (forall p, I p -> matches e p (ir_match r) = false) -> seg_ok n [r].
+  Proof. intros n [ms a] H. apply (seg_rule_nomatch n ms a H). Qed.
+
+  Lemma seg_rule_jump : forall n ms ch body,
+    lookup cs ch = Some body -> seg_ok n body -> seg_ok (S n) [R ms (AJump ch)].
+  Proof.
+    intros n ms ch body Hl Hb p Hp. unfold G. cbn [go R ir_match ir_action].
+    destruct (matches e p ms); [|exact Hp]. rewrite Hl. rewrite run_S.
+    specialize (Hb p Hp). destruct (G n body p) as [[| |] ?|?|?| |]; simpl in *; auto.
+  Qed.
+  Lemma seg_rule_goto : forall n ms ch body,
+    lookup cs ch = Some body -> seg_ok n body -> seg_ok (S n) [R ms (AGoto ch)].
+  Proof.
+    intros n ms ch body Hl Hb p Hp. unfold G. cbn [go R ir_match ir_action].
+    destruct (matches e p ms); [|exact Hp]. rewrite Hl. rewrite run_S.
+    specialize (Hb p Hp). destruct (G n body p) as [[| |] ?|?|?| |]; simpl in *; auto.
+  Qed.
+
+  Lemma seg_map : forall {A} n (g : A -> irule) l, (forall x, In x l -> seg_ok n [g x]) -> seg_ok n (map g l).
+  Proof.
+    intros A n g l. induction l as [|x l IH]; intro H; [apply seg_nil|].
+    cbn [map]. apply seg_cons; [apply H; left; reflexivity|]. apply IH. intros y Hy. apply H. right. exact Hy.
+  Qed.
+  Lemma seg_flat_map : forall {A} n (g : A -> list irule) l, (forall x, In x l -> seg_ok n (g x)) -> seg_ok n (flat_map g l).
+  Proof.
+    intros A n g l. induction l as [|x l IH]; intro H; [apply seg_nil|].
+    cbn [flat_map]. apply seg_app; [apply H; left; reflexivity|]. apply IH. intros y Hy. apply H. right. exact Hy.
+  Qed.
+  Lemma seg_opt : forall n b rs, seg_ok n rs -> seg_ok n (opt_rules b rs).
+  Proof. intros n [|] rs H; [exact H|apply seg_nil]. Qed.
+
+  (* a list of ACCEPT-only rules, one of which matches every I-packet: decides by ACCEPT *)
+  Definition all_accept (rs : list irule) : Prop := forall r, In r rs -> ir_action r = AAccept.
+  Lemma go_all_accept : forall n rs p, all_accept rs ->
+    G n rs p = if existsb (fun r => matches e p (ir_match r)) rs then RDone FAccept p else RFall p.
+  Proof.
+    intros n rs p. induction rs as [|r rs IH]; intro H; [reflexivity|].
+    unfold G in *. cbn [go existsb]. destruct (matches e p (ir_match r)) eqn:Em.
+    - rewrite (H r (or_introl eq_refl)). reflexivity.
+    - simpl. apply IH. intros x Hx. apply H. right. exact Hx.
+  Qed.
+
+  (* ---------------------------------------------------------------- "dropped" family *)
+  Definition is_drop (r : result) : Prop := match r with RDone FDrop _ | RDone FReject _ => True | _ => False end.
+  Definition dpres (r : result) : Prop :=           (* a segment: dropped, or passed on *)
+    match r with RFall p' => I p' | RDone FDrop _ | RDone FReject _ => True | _ => False end.
+  Definition cdpres (r : result) : Prop :=          (* a jumped-to chain: dropped, or back in the caller *)
+    match r with RFall p' | RReturn p' => I p' | RDone FDrop _ | RDone FReject _ => True | _ => False end.
+  Definition seg_dp (n : nat) (rs : list irule) : Prop := forall p, I p -> dpres (G n rs p).
+  Definition callee_dp (n : nat) (rs : list irule) : Prop := forall p, I p -> cdpres (G n rs p).
+  Definition seg_drop (n : nat) (rs : list irule) : Prop := forall p, I p -> is_drop (G n rs p).
+  Definition is_deny (a : target) : Prop := a = ADrop \/ a = AReject.
+
+  Lemma is_drop_dpres : forall r, is_drop r -> dpres r.
+  Proof. destruct r as [[| |] ?|?|?| |]; simpl; tauto. Qed.
+  Lemma dpres_cdpres : forall r, dpres r -> cdpres r.
+  Proof. destruct r as [[| |] ?|?|?| |]; simpl; tauto. Qed.
+  Lemma is_drop_not_fuel : forall r, is_drop r -> r <> RFuel.
+  Proof. intros r H E. subst r. exact H. Qed.
+  Lemma seg_drop_dp : forall n rs, seg_drop n rs -> seg_dp n rs.
+  Proof. intros n rs H p Hp. apply is_drop_dpres, H, Hp. Qed.
+  Lemma seg_dp_callee : forall n rs, seg_dp n rs -> callee_dp n rs.
+  Proof. intros n rs H p Hp. apply dpres_cdpres, H, Hp. Qed.
+
+  Lemma seg_drop_mono : forall n m rs, (n <= m)%nat -> seg_drop n rs -> seg_drop m rs.
+  Proof.
+    intros n m rs Hle H p Hp. specialize (H p Hp).
+    rewrite (G_mono n m rs p Hle (is_drop_not_fuel _ H)). exact H.
+  Qed.
+  Lemma callee_dp_mono : forall n m rs, (n <= m)%nat -> callee_dp n rs -> callee_dp m rs.
+  Proof.
+    intros n m rs Hle H p Hp. specialize (H p Hp).
+    rewrite (G_mono n m rs p Hle). exact H. intro E. rewrite E in H. exact H.
+  Qed.
+  Lemma seg_dp_mono : forall n m rs, (n <= m)%nat -> seg_dp n rs -> seg_dp m rs.
+  Proof.
+    intros n m rs Hle H p Hp. specialize (H p Hp).
+    rewrite (G_mono n m rs p Hle). exact H. intro E. rewrite E in H. exact H.
+  Qed.
+
+  Lemma dp_nil : forall n, seg_dp n [].
+  Proof. intros n p Hp. exact Hp. Qed.
+  Lemma dp_app : forall n a b, seg_dp n a -> seg_dp n b -> seg_dp n (a ++ b).
+  Proof.
+    intros n a b Ha Hb p Hp. unfold G. rewrite go_app. specialize (Ha p Hp). unfold G in Ha.
+    destruct (go cs e (run n cs e) a p) as [[| |] ?|?|p'| |]; simpl in *; auto.
+    apply Hb, Ha.
+  Qed.
+  Lemma dp_app_drop : forall n a b, seg_dp n a -> seg_drop n b -> seg_drop n (a ++ b).
+  Proof.
+    intros n a b Ha Hb p Hp. unfold G. rewrite go_app. specialize (Ha p Hp). unfold G in Ha.
+    destruct (go cs e (run n cs e) a p) as [[| |] ?|?|p'| |]; simpl in *; auto.
+    apply Hb, Ha.
+  Qed.
+  Lemma dp_cons : forall n r rs, seg_dp n [r] -> seg_dp n rs -> seg_dp n (r :: rs).
+  Proof. intros. rewrite cons_app1. apply dp_app; assumption. Qed.
+  Lemma dp_cons_drop : forall n r rs, seg_dp n [r] -> seg_drop n rs -> seg_drop n (r :: rs).
+  Proof. intros. rewrite cons_app1. apply dp_app_drop; assumption. Qed.
+  Lemma dp_opt : forall n b rs, seg_dp n rs -> seg_dp n (opt_rules b rs).
+  Proof. intros n [|] rs H; [exact H|apply dp_nil]. Qed.
+
+  Lemma dp_rule_deny : forall n ms a, is_deny a -> seg_dp n [R ms a].
+  Proof.
+    intros n ms a Ha p Hp. unfold G. cbn [go R ir_match ir_action].
+    destruct (matches e p ms); [|exact Hp]. destruct Ha; subst a; exact Logic.I.
+  Qed.
+  Lemma dp_rule_mark : forall n ms a x, seg_dp n [R ms (AMark a x)].
+  Proof.
+    intros n ms a x p Hp. unfold G. cbn [go R ir_match ir_action].
+    destruct (matches e p ms); [|exact Hp]. simpl. apply I_mark, Hp.
+  Qed.
+  Lemma dp_rule_noop : forall n ms a, is_noop a -> seg_dp n [R ms a].
+  Proof.
+    intros n ms a Ha p Hp. unfold G. cbn [go R ir_match ir_action].
+    destruct (matches e p ms); [|exact Hp]. destruct Ha as [?|[?|[?|?]]]; subst a; exact Hp.
+  Qed.
+  Lemma dp_rule_nomatch : forall n ms a, (forall p, I p -> matches e p ms = false) -> seg_dp n [R ms a].
+  Proof.
+    intros n ms a H p Hp. unfold G. cbn [go R ir_match ir_action]. rewrite (H p Hp). exact Hp.
+  Qed.
+  Lemma dp_rule_nomatch' : forall n r, (forall p, I p -> matches e p (ir_match r) = false) -> seg_dp n [r].
+  Proof. intros n [ms a] H. apply (dp_rule_nomatch n ms a H). Qed.
+  Lemma dp_rule_jump : forall n ms ch body,
+    lookup cs ch = Some body -> callee_dp n body -> seg_dp (S n) [R ms (AJump ch)].
+  Proof.
+    intros n ms ch body Hl Hb p Hp. unfold G. cbn [go R ir_match ir_action].
+    destruct (matches e p ms); [|exact Hp]. rewrite Hl. rewrite run_S.
+    specialize (Hb p Hp). destruct (G n body p) as [[| |] ?|?|?| |]; simpl in *; auto.
+  Qed.
+  Lemma dp_map : forall {A} n (g : A -> irule) l, (forall x, In x l -> seg_dp n [g x]) -> seg_dp n (map g l).
+  Proof.
+    intros A n g l. induction l as [|x l IH]; intro H; [apply dp_nil|].
+    cbn [map]. apply dp_cons; [apply H; left; reflexivity|]. apply IH. intros y Hy. apply H. right. exact Hy.
+  Qed.
+
+  (* a rule that certainly matches and whose target certainly drops *)
+  Lemma drop_rule_deny : forall n ms a rs, is_deny a -> (forall p, I p -> matches e p ms = true) -> seg_drop n (R ms a :: rs).
+  Proof.
+    intros n ms a rs Ha Hm p Hp. unfold G. cbn [go R ir_match ir_action]. rewrite (Hm p Hp).
+    destruct Ha; subst a; exact Logic.I.
+  Qed.
+  (* one rule: if it matches, its callee drops; otherwise on to the rest *)
+  Lemma drop_rule_jump_or : forall n ms ch body rs, lookup cs ch = Some body -> seg_drop n body ->
+    seg_drop (S n) rs -> seg_drop (S n) (R ms (AJump ch) :: rs).
+  Proof.
+    intros n ms ch body rs Hl Hb Hrs p Hp. unfold G. cbn [go R ir_match ir_action].
+    destruct (matches e p ms); [|apply Hrs, Hp]. rewrite Hl, run_S.
+    specialize (Hb p Hp). destruct (G n body p) as [[| |] ?|?|?| |]; simpl in *; auto; contradiction.
+  Qed.
+  Lemma drop_rule_goto_or : forall n ms ch body rs, lookup cs ch = Some body -> seg_drop n body ->
+    seg_drop (S n) rs -> seg_drop (S n) (R ms (AGoto ch) :: rs).
+  Proof.
+    intros n ms ch body rs Hl Hb Hrs p Hp. unfold G. cbn [go R ir_match ir_action].
+    destruct (matches e p ms); [|apply Hrs, Hp]. rewrite Hl, run_S.
+    specialize (Hb p Hp). destruct (G n body p) as [[| |] ?|?|?| |]; simpl in *; auto; contradiction.
+  Qed.
+End Seg.
